@@ -4,6 +4,62 @@ of every registered handler on recording sockets (what it sends to the addressed
 sends anywhere else, whether it stores the version payload)."""
 
 
+def recv_loop_ops(p2p):
+    """The operations of Node.recv_loop on the node's state, in source order, as (context, source text) rows:
+    every simple statement / loop or branch condition that mentions `self`, and EVERY statement of the two
+    branches of `if command in self._registered_commands_to_handle` (so that anything added to the enqueue or
+    handler branch - a len()/iteration over the shared queue, a second append, a pop - shows up).  Fails closed
+    when the loop does not have the shape while / [try] / if-registered."""
+    import ast
+    import inspect
+    import textwrap
+    fn = ast.parse(textwrap.dedent(inspect.getsource(p2p.Node.recv_loop))).body[0]
+    assert isinstance(fn, ast.FunctionDef) and fn.name == "recv_loop"
+    rows = []
+    found = {"while": 0, "if": 0}
+
+    def mentions_self(node):
+        return any(isinstance(n, ast.Name) and n.id == "self" for n in ast.walk(node))
+
+    def is_registered_test(t):
+        return (isinstance(t, ast.Compare) and len(t.ops) == 1 and isinstance(t.ops[0], (ast.In, ast.NotIn))
+                and "_registered_commands_to_handle" in ast.unparse(t.comparators[0]))
+
+    def walk(stmts, ctx, everything=False):
+        for st in stmts:
+            if isinstance(st, ast.Expr) and isinstance(st.value, ast.Constant) and isinstance(st.value.value, str) \
+                    and not everything:
+                continue                                   # docstring
+            if isinstance(st, ast.While):
+                found["while"] += 1
+                rows.append((ctx + "while", ast.unparse(st.test)))
+                walk(st.body, ctx + "while/", everything)
+                assert not st.orelse, "while-else in recv_loop"
+            elif isinstance(st, ast.If):
+                reg = is_registered_test(st.test)
+                if reg:
+                    found["if"] += 1
+                    assert isinstance(st.test.ops[0], ast.In), "negated membership test"
+                if reg or everything or mentions_self(st.test):
+                    rows.append((ctx + "if", ast.unparse(st.test)))
+                walk(st.body, ctx + "if/then/", everything or reg)
+                walk(st.orelse, ctx + "if/else/", everything or reg)
+            elif isinstance(st, ast.Try):
+                walk(st.body, ctx + "try/", everything)
+                for h in st.handlers:
+                    walk(h.body, ctx + "except/", everything)
+                walk(st.orelse, ctx + "try-else/", everything)
+                walk(st.finalbody, ctx + "finally/", everything)
+            elif isinstance(st, (ast.For, ast.AsyncFor, ast.With, ast.AsyncWith, ast.Match, ast.FunctionDef, ast.ClassDef)):
+                rows.append((ctx + type(st).__name__.lower(), ast.unparse(st)))     # not part of the modelled shape
+            else:
+                if everything or mentions_self(st):
+                    rows.append((ctx.rstrip("/") if ctx else "top", ast.unparse(st)))
+    walk(fn.body, "")
+    assert found == {"while": 1, "if": 1}, "recv_loop is not `while ...: [try: recv] ... if command in registered`: %r" % found
+    return rows
+
+
 def register(gt):
     @gt.table("NodeGen")
     def gen_node():
@@ -57,4 +113,11 @@ def register(gt):
         out += "Definition probe : list (bytes * bytes * list (bytes * bytes) * Z * bool) :=\n  %s.\n" % gt.coq_list(
             "(%s, %s, %s, %s, %s)" % (gt.coq_bytes(c), gt.coq_bytes(raw), gt.coq_list(fr(f) for f in frames),
                                       gt.coq_Z(e), gt.coq_bool(k)) for (c, raw, frames, e, k) in rows)
+        out += "(* the operations of Node.recv_loop on the node's state, in source order (context, source text):\n"
+        ops = recv_loop_ops(p2p)
+        for (ctx, text) in ops:
+            out += "     %-22s %s\n" % (ctx, text.replace("*)", "* )").replace("(*", "( *"))
+        out += "*)\n"
+        out += "Definition recv_loop_ops : list (bytes * bytes) :=\n  %s.\n" % gt.coq_list(
+            "(%s, %s)" % (gt.coq_string_bytes(ctx), gt.coq_string_bytes(text)) for (ctx, text) in ops)
         return out
